@@ -110,9 +110,12 @@ package pcs
 
 //@ func TCBInfo.validateTCBLevel
 //@   props C18
+//@   modifies nothing
+//@   trustframe
 //@   safety nil
 //@   requires ti != nil
 //@   ensures-local err == nil ==> tcbLevel != nil && StatusOK(tcbLevel.Status)
+//@   defines (err == nil) == ufb("tcbLevelOK", ti, sgxCompSvn, tdxCompSvn, pcesvn)
 //@   note a TCB status the policy disallows (Revoked, ConfigurationAndSWHardeningNeeded, missing; OutOfDate* unless lax verification) is never accepted for the selected level
 
 // ---- validity of the signed collateral at the given time, and policy ----
@@ -160,6 +163,7 @@ package pcs
 //@   safety nil
 //@   requires ti != nil
 //@   ensures-local err == nil ==> bytesId(fmspc) == bytesId(expectedFmspc)
+//@   defines (err == nil) == ufb("fmspcOK", ti, fmspc)
 //@   note collateral that does not belong to the quote's platform (FMSPC from the PCK certificate) is never accepted
 
 // ---- the verification chain: acceptance is dominated by every check ----
@@ -215,6 +219,9 @@ package pcs
 //@   props C18
 //@   requires bnd != nil && policy != nil
 //@   defines (err == nil) == ufb("tcbInfoOK", bnd, teeType, ts, pk, policy, fmspc, sgxCompSvn, tdxCompSvn, pcesvn)
+//@   ensures-local err == nil ==> defined(tcbInfo) && ufb("tcbLevelOK", tcbInfo, sgxCompSvn, tdxCompSvn, pcesvn)
+//@   ensures-local err == nil ==> defined(tcbInfo) && ufb("fmspcOK", tcbInfo, fmspc)
+//@   note the TCB info is accepted only if BOTH the platform binding (FMSPC of the quote's PCK certificate equals the FMSPC of the signed TCB info) and the TCB level evaluation accepted - an error of the first check is not overwritten by the outcome of the second (seed C18_f)
 //@   ensures err == nil ==> GSigTrue == old(GSigTrue) + 1
 //@   ensures GSigTrue >= old(GSigTrue) && GSigTrue <= old(GSigTrue) + 1
 
